@@ -27,8 +27,25 @@ PANICKING_CALLEES = {
     "option::unwrap_failed": "explicit", "result::unwrap_failed": "explicit", "option::expect_failed": "explicit",
     "rt::panic_fmt": "explicit", "panicking::begin_panic": "explicit",
     "Duration::from_secs_f64": "negative/overflow", "SystemTime::duration_since": None,
+    "slice::sort_by": None,
     "Cursor::set_position": None,
 }
+# integer methods that inherit the caller's overflow checks (#[rustc_inherit_overflow_checks]) or panic on a zero /
+# out-of-domain argument: `i64::MIN.abs()` panics in builds with overflow checks just like `-x` does
+for _t in ("i8", "i16", "i32", "i64", "i128", "isize"):
+    PANICKING_CALLEES["%s::abs" % _t] = "overflow for MIN"
+    PANICKING_CALLEES["%s::pow" % _t] = "overflow"
+    PANICKING_CALLEES["%s::div_euclid" % _t] = "division by zero / overflow"
+    PANICKING_CALLEES["%s::rem_euclid" % _t] = "division by zero / overflow"
+    PANICKING_CALLEES["%s::abs_diff" % _t] = None
+for _t in ("u8", "u16", "u32", "u64", "u128", "usize"):
+    PANICKING_CALLEES["%s::pow" % _t] = "overflow"
+    PANICKING_CALLEES["%s::next_power_of_two" % _t] = "overflow"
+    PANICKING_CALLEES["%s::div_euclid" % _t] = "division by zero"
+    PANICKING_CALLEES["%s::rem_euclid" % _t] = "division by zero"
+    PANICKING_CALLEES["%s::div_ceil" % _t] = "division by zero"
+    PANICKING_CALLEES["%s::ilog2" % _t] = "zero"
+    PANICKING_CALLEES["%s::ilog10" % _t] = "zero"
 PANICKING_CALLEES = {k: v for k, v in PANICKING_CALLEES.items() if v is not None}
 
 
